@@ -257,7 +257,11 @@ func Verif_C15_Z3_TaskCompletion() {
 				break
 			}
 		}
-		vnd.Assert(taskFinished, "a chunk reader with a background task reported the end of the stream (or an error) before the task had finished")
+		// A data error handed out by Read() is not yet the completion report (the
+		// consumer still has to Close(), which waits); io.EOF and the task's own error are.
+		if err == io.EOF || err == verifTaskErr {
+			vnd.Assert(taskFinished, "a chunk reader with a background task reported the end of the stream (or the task's error) before the task had finished")
+		}
 		r.Close()
 		if err == io.EOF {
 			err = nil
